@@ -263,6 +263,30 @@ def function_level(plan):
                         viol.append({"key": "get_permissions-differs",
                                      "msg": f"table {table} path {path}: got r={got.readable} w={got.writable} from {got!r}, oracle {want}"})
                         break
+        # one User object asked about many distinct paths, as a server that has been up for a while does: the answer for a path
+        # does not depend on how many others were asked before
+        table = rand_table(rng)
+        user = make_users(table)[0]
+        asked = 0
+        for round_ in range(2):
+            for i in range(400):
+                base_ = rng.choice(UNIVERSE)
+                path = (base_.rstrip("/") + f"/job{i:04d}") if round_ == 0 else base_
+                want = oracle(table, path)
+                if want is None:
+                    continue
+                n += 1
+                asked += 1
+                try:
+                    got = loop.run_until_complete(user.get_permissions(pathlib.PurePosixPath(path)))
+                except Exception as e:
+                    viol.append({"key": "get_permissions-raises", "msg": f"table {table} path {path}: {e!r}"})
+                    break
+                if (bool(got.readable), bool(got.writable)) != want:
+                    viol.append({"key": "get_permissions-differs-after-many-paths",
+                                 "msg": f"table {table} path {path}, the {asked}-th distinct question to this User object: got r={got.readable} "
+                                        f"w={got.writable} from {got!r}, oracle {want}"})
+                    break
     finally:
         loop.close()
     return {"violations": viol[:5], "monitors": {"function_level": n}, "sigs": [sig_of(["f", plan["seed"]])],
